@@ -76,7 +76,11 @@ func (bldr *BundleBuilder) Build() (bndl Bundle, err error) {
 		return
 	}
 
-	bndl, err = NewBundle(bldr.primary, bldr.canonicals)
+	// The bundle gets its own copy of the blocks; this builder might be used further on.
+	canonicals := make([]CanonicalBlock, len(bldr.canonicals))
+	copy(canonicals, bldr.canonicals)
+
+	bndl, err = NewBundle(bldr.primary, canonicals)
 	if err == nil {
 		bndl.SetCRCType(bldr.crcType)
 	}
